@@ -37,6 +37,7 @@ FLOAT_NEG = [-0.5, -2.25]
 STRS = ["mnist", "adam", "x_y"]
 
 
+LONG_LEN = [120]        # the length a "long" description is cut to (swept by conv.judge_case)
 NAME_COLS = [None]      # restrict the identifier pool to these columns (C05: no `*_id` / `*_name` primary-key candidates)
 ALLOW_KEYS = [set()]     # extra entry keys the comparison tolerates (C05: the synthetic id's server_default)
 
@@ -82,6 +83,8 @@ class Gamma(object):
             return True, ["two words", "~/a b/c", "semi;colon, comma"][salt % 3]
         if d == "str_dot":
             return True, ["~/data/x.txt", "v1.2"][salt % 2]
+        if d == "str_kw":
+            return True, ["path", "list", "true"][salt % 3]
         if d == "float_exp":
             return True, [1e-07, 2.5e+20][salt % 2]
         if d == "int_big":
@@ -123,8 +126,10 @@ class Gamma(object):
         if c == "dot":
             return True, "the {}.".format(name)
         if c == "long":
-            return True, ("the {} is described by a sentence that is long enough to be wrapped at the configured "
-                          "line length of one hundred columns, twice over if need be").format(name)
+            text = ("the {} is described by a sentence that is long enough to be wrapped at the configured line length of one hundred "
+                    "columns and then some more words follow it until it is wrapped twice over if need be").format(name)
+            cut = text[:LONG_LEN[0]]
+            return True, cut[:cut.rindex(" ")] if " " in cut[20:] else cut
         if c == "multi":
             return True, "the {}\nsecond line of it".format(name)
         if c == "trig_number":
